@@ -38,6 +38,7 @@ func Fail(msg string) {
 
 type Config struct {
 	Name        string
+	Sleep       bool // sleep sets (partial-order reduction) on top of the state cache; unbounded searches only
 	Delay       bool // delay bounding (every skipped runnable thread costs 1) instead of preemption bounding
 	Bound       int  // maximal number of deviations (preemptions, early timers, non-default pool choices); <0 unbounded
 	TimersLive  bool // timers may fire (early = one deviation, at quiescence free); false = timers never fire
@@ -75,7 +76,22 @@ type Result struct {
 	WallS          float64        `json:"wall_s"`
 }
 
+// sleeper is a transition that need not be explored from the current state because an
+// equivalent interleaving (it was explored from an ancestor and commutes with everything
+// executed since) is already covered.
+type sleeper struct {
+	id uint64
+	fp footprint
+}
+
+type stepInfo struct {
+	sleep   []sleeper // sleep set before the choice
+	allowed []int     // indices (in the enabled list) of the transitions that may be explored here
+	alts    []sleeper // identity and footprint of every enabled transition
+}
+
 type execResult struct {
+	steps   []stepInfo
 	trace   []int
 	nalts   []int
 	costs   [][]int
@@ -86,7 +102,24 @@ type execResult struct {
 	threads int
 }
 
-func runOne(cfg *Config, prefix []int, visited map[uint64]int, body func(*Ctx), wantDescr bool) *execResult {
+type cacheEntry struct {
+	rem   int
+	sleep []uint64 // ids asleep when the state was (last) explored; nil when sleep sets are off
+}
+
+func hasID(ids []uint64, id uint64) bool {
+	for _, x := range ids {
+		if x == id {
+			return true
+		}
+	}
+	return false
+}
+
+// runOne executes the prefix, then default choices. With sleep != nil (unbounded searches
+// only) it maintains sleep sets: sleep is the sleep set of the state reached by the prefix.
+func runOne(cfg *Config, prefix []int, visited map[uint64]cacheEntry, body func(*Ctx), wantDescr bool, useSleep bool, sleep []sleeper) *execResult {
+	var steps []stepInfo
 	epochCounter++
 	s := &Sched{yield: make(chan *Thread), epoch: epochCounter, timersLive: cfg.TimersLive}
 	S = s
@@ -182,6 +215,26 @@ func runOne(cfg *Config, prefix []int, visited map[uint64]int, body func(*Ctx), 
 			break // quiescent
 		}
 		choice := 0
+		var info stepInfo
+		if useSleep && step >= len(prefix) {
+			info.alts = make([]sleeper, len(trs))
+			for i, tr := range trs {
+				info.alts[i] = sleeper{s.trID(tr), s.footprintOf(tr)}
+			}
+			info.sleep = sleep
+			for i := range trs {
+				asleep := false
+				for _, z := range sleep {
+					if z.id == info.alts[i].id {
+						asleep = true
+						break
+					}
+				}
+				if !asleep {
+					info.allowed = append(info.allowed, i)
+				}
+			}
+		}
 		if step < len(prefix) {
 			choice = prefix[step]
 			if choice >= len(trs) {
@@ -197,11 +250,63 @@ func runOne(cfg *Config, prefix []int, visited map[uint64]int, body func(*Ctx), 
 			if cfg.Bound >= 0 {
 				rem = cfg.Bound - spent
 			}
-			if v, ok := visited[k]; ok && v >= rem {
-				pruned = true
+			e, seen := visited[k]
+			if !useSleep {
+				if seen && e.rem >= rem {
+					pruned = true
+					break
+				}
+				visited[k] = cacheEntry{rem: rem}
+			} else {
+				cur := make([]uint64, len(sleep))
+				for i, z := range sleep {
+					cur[i] = z.id
+				}
+				if seen {
+					// explored before with sleep set e.sleep: everything outside e.sleep is covered.
+					// Still to do: what was asleep then and is not asleep now.
+					var todo []int
+					var inter []uint64
+					for _, id := range e.sleep {
+						if hasID(cur, id) {
+							inter = append(inter, id)
+						}
+					}
+					for _, i := range info.allowed {
+						if hasID(e.sleep, info.alts[i].id) {
+							todo = append(todo, i)
+						}
+					}
+					e.sleep = inter
+					visited[k] = e
+					info.allowed = todo
+				} else {
+					visited[k] = cacheEntry{rem: rem, sleep: cur}
+				}
+				if len(info.allowed) == 0 {
+					pruned = true
+					break
+				}
+			}
+		}
+		if useSleep && step >= len(prefix) {
+			if len(info.allowed) == 0 {
+				pruned = true // sleep-set blocked: every enabled transition is covered elsewhere
 				break
 			}
-			visited[k] = rem
+			choice = info.allowed[0]
+			for len(steps) < step {
+				steps = append(steps, stepInfo{})
+			}
+			steps = append(steps, info)
+			// transitions that commute with the chosen one stay asleep
+			var next []sleeper
+			for _, z := range sleep {
+				if independent(z.fp, info.alts[choice].fp) {
+					next = append(next, z)
+				}
+			}
+			sleep = next
 		}
 		spent += costs[choice]
 		s.trace = append(s.trace, choice)
@@ -218,7 +323,7 @@ func runOne(cfg *Config, prefix []int, visited map[uint64]int, body func(*Ctx), 
 			last = trs[choice].t
 		}
 	}
-	res := &execResult{trace: s.trace, nalts: s.nalts, costs: s.costs, descr: s.descr, pruned: pruned, fail: s.fail, threads: len(s.threads)}
+	res := &execResult{steps: steps, trace: s.trace, nalts: s.nalts, costs: s.costs, descr: s.descr, pruned: pruned, fail: s.fail, threads: len(s.threads)}
 	if !pruned && res.fail == "" {
 		for _, f := range s.onEnd {
 			if m := f(); m != "" {
@@ -254,18 +359,22 @@ func Explore(cfg Config, body func(*Ctx)) *Result {
 	start := time.Now()
 	old := debug.SetGCPercent(-1)
 	defer debug.SetGCPercent(old)
-	var visited map[uint64]int
+	var visited map[uint64]cacheEntry
 	if !cfg.NoCache {
-		visited = map[uint64]int{}
+		visited = map[uint64]cacheEntry{}
 	}
+	// sleep sets are combined with the state cache only in unbounded searches (with a
+	// deviation bound the representative interleaving kept by a sleep set may exceed the
+	// budget while an equivalent cheaper one was put to sleep)
+	useSleep := cfg.Sleep && cfg.Bound < 0 && visited != nil
 	if cfg.MaxFailures == 0 {
 		cfg.MaxFailures = 1
 	}
 	res := &Result{Name: cfg.Name, Bound: cfg.Bound, Outcomes: map[string]int{}, Complete: true}
 	stop := false
 	subtree := 0
-	var rec func(prefix []int, spent int, depth int)
-	rec = func(prefix []int, spent int, depth int) {
+	var rec func(prefix []int, spent int, depth int, sleep []sleeper)
+	rec = func(prefix []int, spent int, depth int, sleep []sleeper) {
 		if stop {
 			return
 		}
@@ -274,7 +383,7 @@ func Explore(cfg Config, body func(*Ctx)) *Result {
 			stop = true
 			return
 		}
-		r := runOne(&cfg, prefix, visited, body, false)
+		r := runOne(&cfg, prefix, visited, body, false, useSleep, sleep)
 		res.Execs++
 		if len(prefix) == 0 {
 			res.Transitions += len(r.trace)
@@ -297,8 +406,8 @@ func Explore(cfg Config, body func(*Ctx)) *Result {
 		}
 		if r.fail != "" {
 			// determinism discipline: the same schedule must fail the same way twice
-			r2 := runOne(&cfg, r.trace, nil, body, true)
-			r3 := runOne(&cfg, r.trace, nil, body, true)
+			r2 := runOne(&cfg, r.trace, nil, body, true, false, nil)
+			r3 := runOne(&cfg, r.trace, nil, body, true, false, nil)
 			if r2.fail != r.fail || r3.fail != r.fail {
 				panic(fmt.Sprintf("vsched: INFRA nondeterministic failure: %q vs %q vs %q", r.fail, r2.fail, r3.fail))
 			}
@@ -309,6 +418,39 @@ func Explore(cfg Config, body func(*Ctx)) *Result {
 			res.Failures = append(res.Failures, Failure{Msg: r.fail, Choices: r.trace, Steps: r2.descr, Deviations: dev})
 			if len(res.Failures) >= cfg.MaxFailures {
 				stop = true
+			}
+			return
+		}
+		if useSleep {
+			for i := len(prefix); i < len(r.trace) && i < len(r.steps); i++ {
+				st := r.steps[i]
+				for k := 1; k < len(st.allowed); k++ {
+					if cfg.NShards > 1 && depth == 1 {
+						subtree++
+						if subtree%cfg.NShards != cfg.Shard {
+							continue
+						}
+					}
+					alt := st.allowed[k]
+					// asleep below alt: the current sleep set plus the siblings explored before it,
+					// as far as they commute with alt
+					var z []sleeper
+					for _, u := range st.sleep {
+						if independent(u.fp, st.alts[alt].fp) {
+							z = append(z, u)
+						}
+					}
+					for _, j := range st.allowed[:k] {
+						if independent(st.alts[j].fp, st.alts[alt].fp) {
+							z = append(z, st.alts[j])
+						}
+					}
+					np := append(append(make([]int, 0, i+1), r.trace[:i]...), alt)
+					rec(np, 0, depth+1, z)
+					if stop {
+						return
+					}
+				}
 			}
 			return
 		}
@@ -326,7 +468,7 @@ func Explore(cfg Config, body func(*Ctx)) *Result {
 					}
 				}
 				np := append(append(make([]int, 0, i+1), r.trace[:i]...), alt)
-				rec(np, c, depth+1)
+				rec(np, c, depth+1, nil)
 				if stop {
 					return
 				}
@@ -334,14 +476,14 @@ func Explore(cfg Config, body func(*Ctx)) *Result {
 			sp += r.costs[i][r.trace[i]]
 		}
 	}
-	rec(nil, 0, 0)
+	rec(nil, 0, 0, nil)
 	res.States = len(visited)
 	if visited == nil {
 		res.States = res.Transitions
 	}
 	// one fully described default execution as a sample
 	if len(res.Failures) == 0 {
-		r := runOne(&cfg, nil, nil, body, true)
+		r := runOne(&cfg, nil, nil, body, true, false, nil)
 		res.SampleTrace = r.descr
 	}
 	res.WallS = time.Since(start).Seconds()
@@ -351,6 +493,6 @@ func Explore(cfg Config, body func(*Ctx)) *Result {
 // Replay runs exactly one execution following choices and reports its failure (if any)
 // together with the described steps.
 func Replay(cfg Config, body func(*Ctx), choices []int) (fail string, steps []string) {
-	r := runOne(&cfg, choices, nil, body, true)
+	r := runOne(&cfg, choices, nil, body, true, false, nil)
 	return r.fail, r.descr
 }
